@@ -117,6 +117,38 @@ let dumb_line l =
       | _ -> failwith "bad dumb op") (String.split_on_char ';' rest) in
     show_outcome (fun (segs, _) -> hex_of_bytes (printed segs)) (d_run0 v ops)
 
+(* fs: <cwd comps, '/'-separated hex or -> ; <tree entries: D hexpath | F hexpath hexcontent, ','-separated> ; <ops: D out-hex ... | R name-hex content-hex, ','-separated>
+   paths of tree entries are '/'-joined component names relative to the model root; prints the result of every operation
+   and the final tree, sorted *)
+let fs_line l =
+  let comps_of (h : string) : n list list =
+    let s = unhex h in
+    if s = "" then [] else List.map bytes_of_string (String.split_on_char '/' s) in
+  match String.split_on_char ';' l with
+  | [cwd; tree; ops] ->
+    let cwd = comps_of (String.trim cwd) in
+    let entries = List.filter_map (fun e ->
+      match words e with
+      | [] -> None
+      | ["D"; p] -> Some (comps_of p, KDir)
+      | ["F"; p; c] -> Some (comps_of p, KFile (bytes_of_hex c))
+      | _ -> failwith "bad fs entry") (String.split_on_char ',' tree) in
+    (* later entries shadow nothing: the generator lists each location once *)
+    let ops = List.filter_map (fun o ->
+      match words o with
+      | [] -> None
+      | "D" :: outs -> Some (OpDirs (List.map (fun h -> let b = bytes_of_hex h in match canon b with Ok c -> c | _ -> b) outs))   (* the graph holds canonical names *)
+      | ["R"; n; c] -> Some (OpRsp (bytes_of_hex n, bytes_of_hex c))
+      | _ -> failwith "bad fs op") (String.split_on_char ',' ops) in
+    let (res, fs') = fs_run entries cwd ops in
+    let show_e = function
+      | None -> "ok" | Some ENOENT -> "ENOENT" | Some ENOTDIR -> "ENOTDIR" | Some EEXIST -> "EEXIST" | Some EISDIR -> "EISDIR" in
+    let items = List.map (fun (p, k) ->
+      let ps = String.concat "/" (List.map string_of_bytes p) in
+      match k with KDir -> "D " ^ hex ps | KFile c -> "F " ^ hex ps ^ " " ^ hex_of_bytes c) (fs_listing fs') in
+    String.concat " " (List.map show_e res) ^ " | " ^ String.concat "," (List.sort compare items)
+  | _ -> "bad"
+
 (* <argv0-hex> [arg-hex ...].  The file system `-C` sees is the harness's scratch tree: d1, d1/d2, "with space"
    (this emulation is part of the correspondence machinery, not of the model) *)
 let cli_dirs = [ []; ["d1"]; ["d1"; "d2"]; ["with space"] ]
@@ -497,7 +529,7 @@ let suites : (string * (string -> string)) list =
     ("showincludes", showinc_line true); ("showincludes_pinned", showinc_line false);
     ("lastline", lastline_line); ("depfiledeps", depfiledeps_line);
     ("taskmsg", taskmsg_line true); ("taskmsg_pinned", taskmsg_line false);
-    ("truncate", truncate_line); ("bar", bar_line); ("fancy", fancy_line); ("lossy", lossy_line); ("task", task_line); ("dumb", dumb_line); ("cli", cli_line); ("status", status_line);
+    ("truncate", truncate_line); ("bar", bar_line); ("fancy", fancy_line); ("lossy", lossy_line); ("task", task_line); ("dumb", dumb_line); ("cli", cli_line); ("fs", fs_line); ("status", status_line);
     ("inv", inv_line); ("select", select_line); ("build", build_line);
     ("dbopen", dbopen_line); ("dbwrite", dbwrite_line);
     ("load", load_line); ("world", world_line); ("siphash", hash_line); ("dedup", dedup_line true); ("dedup_pinned", dedup_line false) ]
